@@ -42,6 +42,24 @@ CHECKS = {
  'C20': ('exploration', 'runtime law checking (no model): totality, reflexive/symmetric/transitive Equals, decoded-copy equality, CompareTo sign reversal, transitivity, zero-iff-equal for scalars and type-code order, over generated pairs and triples covering all type pairs',
          'Pairs and triples over all 20x20 implemented type pairs and the targeted shapes (different key sets, insertion orders, element types, nil versus empty, equal-sum summaries, NaN as its own class, a value and its decoded copy) are evaluated; any panic or broken law is reported under a key naming law, types and shape.',
          'Laws only: a lawful but wrong ordering is not visible (payload content is C02). Known findings (container CompareTo and NaN) are listed in known_findings.jsonl with witnesses.', 'DESIGN.md §4 C20'),
+ 'C03': ('exploration', 'runtime round-trip monitoring of every pack type against a committed carried-field manifest: structural diff of populated and decoded packs, consumption canary, byte-identical re-encode, container record/stamp checks and per-field sensitivity probes',
+         'Every registered and unregistered pack type is populated by reflection from spec/pack_fields.json with boundary-biased values (both header forms, optional sections on/off, record lists of 0/1/many, nested and compressed containers), encoded, decoded and re-encoded; every carried field must be restored, the decoder must consume exactly the encoding, containers must return their records in order and stamped, and flipping any manifest field must change the bytes.',
+         'The manifest was derived from the writers of the pinned tree, cross-checked by measurement and reviewed; a change made consistently to writer and reader of a listed pack is C05 territory. Known reader/writer disagreements are listed in known_findings.jsonl.', 'DESIGN.md §4 C03'),
+ 'C05': ('exploration', 'runtime differential monitoring of the bytes a TCP peer actually receives (and of ToBytesPack) against an independent reference encoder of the frame, the common header and the eight pack bodies',
+         'Packs of the eight listed types are generated as neutral reference structs, converted to real packs, sent through a real OneWayTcpClient to a loopback peer (Send/SendFlush, with and without per-send license) and encoded with ToBytesPack; the received stream must equal byte for byte the reference frames, with the first differing offset attributed to a reference field.',
+         'Conformance is relative to harness/refcodec/packs.go, written from the property text and the pinned writers (no Java collector in the sandbox); field values are sampled with boundary bias; entry order of the two unordered DB-pool maps is not part of the layout.', 'DESIGN.md §4 C05'),
+ 'C09': ('exploration', 'runtime lock-step monitoring of the thirteen linked hash maps/sets against a sequential insertion-ordered dictionary model, with a structural invariant walker over the private tables after every operation',
+         'Operation histories (all public operations, colliding/negative/extreme/empty keys, capacities, load factors, maximum sizes) are applied to the real structure and to the model; after every operation the return value, size, first/last elements and all enumerations must agree and the walker must find buckets, chains, the order list and the bound intact.',
+         'Histories are sampled (<= 400 operations); the classes of nothing {nil, \"\", 0, NONE, false} are folded as the thirteen types do not agree on them; bucket hashes used by the walker are transcribed and cross-checked by lookups.', 'DESIGN.md §4 C09'),
+ 'C10': ('exploration', 'Go race detector over stress workloads of the point operations; porcupine linearizability checking of recorded short concurrent histories against the sequential models, with structural walkers at quiescence; reflection-enumerated self-deadlock probe of every exported method on private instances',
+         'For all seventeen hash maps/sets, the linked list and both queues: 2..16 goroutines hammer one shared instance with the point operations under -race; thousands of short histories (3..5 goroutines, logical-clock call/return stamps) are checked with porcupine against the lmap/pmap/deque models and the private structure is walked afterwards; every exported method (found by reflection) is called on a private populated instance and a probe parked in Mutex.Lock is a conclusive self-deadlock.',
+         'Only interleavings the scheduler produced are covered (evidence: histories with overlap, overlapping pairs, operation-pair matrix per type); linearizability and race freedom are claimed for the point operations only, as the property states.', 'DESIGN.md §4 C10'),
+ 'C12': ('exploration', 'runtime lock-step monitoring of the four plain hash maps/sets against a mathematical map/set model, multiset comparison of enumerations, structural walker, and serialisation against an independent reference',
+         'Operation histories across several rehashes (colliding, negative, extreme and empty keys; capacities and load factors) are applied to the real structure and the model; returns and sizes must agree after every operation, enumerations must yield every element exactly once, chains must be intact, and IntIntMap.ToBytes/ToObject must round-trip and match the reference encoding.',
+         'Histories are sampled; return conventions for nothing are folded as in C09.', 'DESIGN.md §4 C12'),
+ 'C18': ('exploration', 'runtime monitoring of the real file configuration on temp files: edit-history tracking with pinned mtimes against an independent properties parser, observer monitors, reader/reload stress under the race detector in a grandchild process, write-back diff oracles, atomicity sampler and (thorough) strace crash-point enumeration of the write-back',
+         'Random edit histories (incl. several edits within one second) are followed by an immediate reload through the verif hook and all getters compared with an independent parse; observers must be notified; readers hammer getters during reloads; SetValues results are diffed line by line; a concurrent reader samples the file during write-back and, in the thorough tier, every syscall of the write-back is killed once with strace and the file must be complete old or new content.',
+         'Uses the verif hooks VerifNew/VerifReloadNow/VerifStop; crash points are syscall boundaries only; lenient numeric spellings are accepted either way. Known write-back escaping findings are listed with their value class.', 'DESIGN.md §4 C18'),
 }
 PENDING = 'check not built yet in this round (planned, see DESIGN.md §4); not claimed until its monitor exists and is silent on the unchanged tree'
 NA = {}
